@@ -69,3 +69,41 @@ M("C18-M10", "C18", READER, "            if close:\n                file_or_name
 M("C18-M11", "C18", ERRORS, "@contextmanager\ndef override_raise_controller_value_errors", "def override_raise_controller_value_errors", mention="contextmanager")
 M("C18-T1", "C18", READER, "        close = False\n        if isinstance(file_or_name, (Path, str)):\n            file_or_name = Path(file_or_name).open(\"rb\")\n            close = True\n        try:\n            reader = InitialReader(file_or_name)\n            return reader.object\n        finally:\n            if close:\n                file_or_name.close()\n", "        if isinstance(file_or_name, (Path, str)):\n            with Path(file_or_name).open(\"rb\") as f:\n                return InitialReader(f).object\n        reader = InitialReader(file_or_name)\n        return reader.object\n", expect="T")
 M("C18-T2", "C18", ERRORS, "    old_raise_errors = RAISE_CONTROLLER_VALUE_ERRORS\n", "    old_raise_errors = RAISE_CONTROLLER_VALUE_ERRORS\n    saved = old_raise_errors\n", expect="T")
+
+# ----------------------------------------------------------------------------------- C19
+_OWN = "        for row in new:\n            for note in row:\n                note.pattern = self\n"
+M("C19-D9a", "C19", PATTERN, "                new[line][track] = fn(self, line, track)\n" + _OWN, "                new[line][track] = fn(self, line, track)\n", mention="set_via_fn")
+M("C19-D9b", "C19", PATTERN, "            new[line][track] = note\n" + _OWN, "            new[line][track] = note\n", mention="set_via_gen")
+M("C19-M1", "C19", PATTERN, "        new = deepcopy(self.data)\n        for line in range(self.lines):", "        new = deepcopy(self.data)\n        self._data = new\n        for line in range(self.lines):", mention="set_via_fn")
+M("C19-M2", "C19", PATTERN, "        new = deepcopy(self.data)\n        for line in range(self.lines):", "        new = list(self.data)\n        for line in range(self.lines):", mention="set_via_fn")
+M("C19-M3", "C19", PATTERN, "        for line, track, note in gen(self, new):\n            new[line][track] = note\n", "        for line, track, note in gen(self, new):\n            self.data[line][track] = note\n", mention="set_via_gen")
+M("C19-M4", "C19", PATTERN, "        new = deepcopy(self.data)\n        for line, track, note in gen(self, new):", "        new = self.data\n        for line, track, note in gen(self, new):", mention="set_via_gen")
+M("C19-M5", "C19", PATTERN, "        for line, track, note in gen(self, new):\n            new[line][track] = note\n", "        try:\n            for line, track, note in gen(self, new):\n                new[line][track] = note\n        except Exception:\n            self._data = new\n            raise\n", mention="set_via_gen")
+M("C19-M6", "C19", PATTERN, "                new[line][track] = fn(self, line, track)\n" + _OWN, "                new[line][track] = fn(self, line, track)\n        for row in new[:1]:\n            for note in row:\n                note.pattern = self\n", mention="set_via_fn")
+M("C19-M7", "C19", PATTERN, "            line.extend(Note(pattern=self) for _ in range(self.tracks))", "            line.extend(Note() for _ in range(self.tracks))", mention="clear")
+M("C19-T1", "C19", PATTERN, "        new = deepcopy(self.data)\n        for line in range(self.lines):", "        new = [[n.clone() for n in row] for row in self.data]\n        for line in range(self.lines):", expect="T")
+M("C19-T2", "C19", PATTERN, "                new[line][track] = fn(self, line, track)\n" + _OWN, "                note = fn(self, line, track)\n                note.pattern = self\n                new[line][track] = note\n", expect="T")
+
+# ----------------------------------------------------------------------------------- C07
+M("C07-D3a", "C07", PROJECT, "                    if from_mod_idx not in in_links:  # Already disconnected?\n                        continue", "                    if from_mod_idx not in in_links:  # Already disconnected?\n                        return", mention="Project.connect")
+M("C07-D3b", "C07", PROJECT, "                    # [TODO] flatten to remove -1\n                    continue", "                    # [TODO] flatten to remove -1\n                    return", mention="Project.connect")
+M("C07-D3c", "C07", PROJECT, "                if from_mod_idx in in_links:  # Already connected?\n                    continue", "                if from_mod_idx in in_links:  # Already connected?\n                    break", mention="Project.connect")
+M("C07-D13", "C07", PROJECT, "        for from_operand in from_modules:\n            for to_operand in to_modules:\n                from_module, to_module = from_operand, to_operand\n", "        for from_module in from_modules:\n            for to_module in to_modules:\n", mention="R7")
+M("C07-M1", "C07", PROJECT, "                in_links.append(from_mod_idx)\n", "", mention="R2")
+M("C07-M2", "C07", PROJECT, "                out_links.append(to_mod_idx)\n", "", mention="R2")
+M("C07-M3", "C07", PROJECT, "                in_link_slots.append(out_link_idx)\n", "", mention="R2")
+M("C07-M4", "C07", PROJECT, "                out_link_slots.append(in_link_idx)\n", "", mention="R2")
+M("C07-M5", "C07", PROJECT, "                    in_link_slots[in_link_idx] = -1\n", "                    in_link_slots[out_link_idx] = -1\n", mention="R2")
+M("C07-M6", "C07", PROJECT, "                in_link_slots.append(out_link_idx)\n", "                in_link_slots.append(in_link_idx)\n", mention="R3")
+M("C07-M7", "C07", PROJECT, "                out_link_idx = len(out_links)\n                out_links.append(to_mod_idx)\n", "                out_links.append(to_mod_idx)\n                out_link_idx = len(out_links)\n", mention="R3")
+M("C07-M8", "C07", MODULE, "    def __rshift__(self, other):\n        self.parent.connect(self, other)\n        if isinstance(other, list):\n            other = ModuleList(self.parent, other)\n        return other\n\n\nclass Behavior", "    def __rshift__(self, other):\n        self.parent.connect(other, self)\n        if isinstance(other, list):\n            other = ModuleList(self.parent, other)\n        return other\n\n\nclass Behavior", mention="ModuleList.__rshift__")
+M("C07-M9", "C07", PROJECT, "                in_links = to_module.in_links\n                in_link_slots = to_module.in_link_slots\n                out_links = from_module.out_links\n                out_link_slots = from_module.out_link_slots\n", "                in_links = to_module.in_links\n                in_link_slots = to_module.in_link_slots\n                out_links = to_module.out_links\n                out_link_slots = to_module.out_link_slots\n", mention="R2")
+M("C07-M10", "C07", PROJECT, "                    in_links[in_link_idx] = -1\n", "", mention="R2")
+M("C07-M11", "C07", PROJECT, "                in_links.append(from_mod_idx)\n", "                in_links.append(to_mod_idx)\n", mention="R3")
+M("C07-M12", "C07", PROJECT, "                    out_link_idx = out_links.index(to_mod_idx)\n", "                    out_link_idx = in_link_slots[in_link_idx]\n                    out_link_idx = in_link_idx\n", mention="R3")
+M("C07-M13", "C07", PROJECT, "                try:\n                    from_mod_idx = self.module_index(from_module)\n                    to_mod_idx = self.module_index(to_module)\n                except ValueError:\n                    raise ModuleOwnershipError(\n                        \"Modules must have same parent to be connected or disconnected\"\n                    )\n", "                from_mod_idx = from_module.index\n                to_mod_idx = to_module.index\n", mention="R4")
+M("C07-M14", "C07", PROJECT, "                if isinstance(to_module, DisconnectingModule):\n                    disconnect = True\n                    to_module = to_module.orig\n", "", mention="R5")
+M("C07-M15", "C07", PROJECT, "    def module_index(self, module):", "    def drop_links(self, module):\n        module.in_links.clear()\n\n    def module_index(self, module):", mention="drop_links")
+M("C07-M16", "C07", PROJECT, "            for to_operand in to_modules:\n", "            for to_operand in to_modules[:1]:\n", mention="R1")
+M("C07-T1", "C07", PROJECT, "        for from_operand in from_modules:\n            for to_operand in to_modules:\n                from_module, to_module = from_operand, to_operand\n", "        from itertools import product\n\n        for from_operand, to_operand in product(from_modules, to_modules):\n            if True:\n                from_module, to_module = from_operand, to_operand\n", expect="T")
+M("C07-T2", "C07", PROJECT, "                in_link_idx = len(in_links)\n                in_links.append(from_mod_idx)\n                out_link_idx = len(out_links)\n                out_links.append(to_mod_idx)\n", "                in_link_idx = len(in_links)\n                out_link_idx = len(out_links)\n                in_links.append(from_mod_idx)\n                out_links.append(to_mod_idx)\n", expect="T")
